@@ -281,6 +281,15 @@ func (g *Gen) Schema(depth int) M {
 		if g.p(0.3) {
 			s["type"] = "object"
 		}
+		if g.p(0.25) {
+			// a composition that also allows additional properties (no properties of its own)
+			if g.p(0.5) {
+				s["additionalProperties"] = g.Schema(depth - 1)
+			} else {
+				s["additionalProperties"] = true
+			}
+			g.hit("schema:allOf-with-additionalProperties")
+		}
 	}
 	if g.p(0.04) {
 		// explicitly empty containers (they load as empty, non-nil Go slices / maps): no allOf member, no property
